@@ -66,19 +66,22 @@ def handler_names(tr):
 
 
 def find_spec_flags(tree):
-    """Module-level names whose value traces to importlib.util.find_spec(...) / hasattr(...)."""
-    flags = set()
+    """Module-level names whose value traces to importlib.util.find_spec('<package>') -> {flag name: package}."""
+    flags = {}
     for st in tree.body:
         if isinstance(st, ast.Assign) and len(st.targets) == 1 and isinstance(st.targets[0], ast.Name):
-            txt = ast.unparse(st.value)
-            if "find_spec(" in txt or txt.startswith("hasattr("):
-                flags.add(st.targets[0].id)
+            for c in ast.walk(st.value):
+                if isinstance(c, ast.Call) and ast.unparse(c.func).endswith("find_spec") and c.args and isinstance(c.args[0], ast.Constant):
+                    flags[st.targets[0].id] = str(c.args[0].value).split(".")[0]
     return flags
 
 
-def guards_of(node, flags):
-    """List of qualifying guards enclosing `node`: ('try', excs, try_node, arm) / ('if', test)."""
+def guards_of(node, flags, subject=None):
+    """Qualifying guards enclosing `node`.  `subject` = (root alias, first missing attribute, top-level package) of what is being protected:
+    an `if hasattr(M, 'a')` only protects the chain M.a, an availability flag only the package it was computed for; a `try` whose handler
+    catches ImportError / AttributeError protects whatever fails inside its body."""
     out = []
+    alias, attr, pkg = subject or (None, None, None)
     child, p = node, parent(node)
     while p is not None:
         if isinstance(p, ast.Try):
@@ -89,14 +92,22 @@ def guards_of(node, flags):
                 hn = {"*"} if t is None else {ast.unparse(x).split(".")[-1] for x in (t.elts if isinstance(t, ast.Tuple) else [t])}
                 if hn & GUARD_EXC:
                     out.append(("try-handler", p))
-        if isinstance(p, ast.If):
-            names = {n.id for n in ast.walk(p.test) if isinstance(n, ast.Name)}
-            txt = ast.unparse(p.test)
-            if (names & flags) or "find_spec(" in txt or "hasattr(" in txt:
-                out.append(("if", p))
-        if isinstance(p, ast.IfExp):
-            txt = ast.unparse(p.test)
-            if "hasattr(" in txt:
+        if isinstance(p, (ast.If, ast.IfExp)):
+            test = p.test
+            in_body = (child in p.body) if isinstance(p, ast.If) else (child is p.body)
+            ok = False
+            for c in ast.walk(test):
+                if isinstance(c, ast.Call) and ast.unparse(c.func) == "hasattr" and len(c.args) == 2 and isinstance(c.args[1], ast.Constant):
+                    if alias is not None and ast.unparse(c.args[0]).split(".")[0] == alias and (attr is None or c.args[1].value == attr):
+                        ok = True
+                if isinstance(c, ast.Call) and ast.unparse(c.func).endswith("find_spec") and c.args and isinstance(c.args[0], ast.Constant):
+                    if pkg is not None and str(c.args[0].value).split(".")[0] == pkg:
+                        ok = True
+                if isinstance(c, ast.Name) and c.id in flags and pkg is not None and flags[c.id] == pkg:
+                    ok = True
+                if isinstance(c, ast.Attribute) and c.attr in ("__available__",) and pkg is not None:
+                    ok = True       # availability flag of a wrapper module (pyrex.custom.pyspice.__available__)
+            if ok and in_body:
                 out.append(("if", p))
         child, p = p, parent(p)
     return out
@@ -240,7 +251,7 @@ def run(ctx):
         for node, module, name, asname in imports:
             k, err, dep, _ = resolve(module, [name] if name else [])
             results.append((node, module, name, err))
-            g = guards_of(node, flags)
+            g = guards_of(node, flags, (None, None, module.split(".")[0]))
             for kind, tr in g:
                 if kind in ("try-body", "try-handler"):
                     arm = failed_try_arms.setdefault(id(tr), {"try-body": True, "try-handler": True, "n": {"try-body": 0, "try-handler": 0}})
@@ -251,7 +262,7 @@ def run(ctx):
             what = f"import {module}" if name is None else f"from {module} import {name}"
             construct = f"{path}:{what}"
             top = module.split(".")[0]
-            g = guards_of(node, flags)
+            g = guards_of(node, flags, (None, None, top))
             declared_ok = top in STDLIB or top.lower().replace("-", "_") in declared
             ctx.count("imports")
             if err:
@@ -301,8 +312,8 @@ def run(ctx):
             rec["lines"].append(outer.lineno)
             rec["nodes"].append(outer)
             if err:
-                g = guards_of(outer, flags)
-                gi = guards_of(impnode, flags)
+                g = guards_of(outer, flags, (root.id, full[k] if k < len(full) else None, mod.split(".")[0]))
+                gi = guards_of(impnode, flags, (None, None, mod.split(".")[0]))
                 if g or gi:
                     rec["guarded"] += 1
             if dep:
@@ -454,6 +465,8 @@ def r20e(ctx, mname, tree, local):
 
 SELFTEST = {
     "faults": [
+        {"name": "removed stdlib function under an unrelated hasattr guard", "file": "pyrex/detector.py", "old": "                        sig = inspect.signature(sub.build_antennas)\n                        keys = sig.parameters.keys()",
+         "new": "                        sig = inspect.getargspec(sub.build_antennas)\n                        keys = sig.args", "rule": "R20a"},
         {"name": "helper renamed in internal_functions, one custom import site forgotten", "file": "pyrex/internal_functions.py", "old": "def normalize(vector):", "new": "def normalise(vector):",
          "rule": "R20f"},
         {"name": "sub-package imports a module that does not exist", "file": "pyrex/custom/irex/__init__.py", "old": "from .antenna import", "new": "from .antennas import", "rule": "R20f"},
